@@ -118,8 +118,7 @@ func (g *gGen) userMeta(d *draws) map[string]string {
 
 // resum consumes exactly 12 draws.
 func (g *gGen) resum(d *draws, n int) *resumPlan {
-	sub := &draws{v: d.v[d.i : d.i+12]}
-	d.i += 12
+	sub := d.sub(12)
 	p := &resumPlan{KnownTotal: sub.n(2) == 0, StarQuery: sub.n(2) == 1}
 	switch sub.w(3, 3, 2, 2) {
 	case 0: // one chunk
